@@ -354,3 +354,42 @@ def norm_term(t):
             return inner
         return inner if inner[0] == "annotated" else ("annotated", inner)
     return t
+
+
+# ------------------------------------------------------------------ IntEnum members inside containers
+# Python: (IE.X,) == (1,) and both are tuples, so a literal container type holding the int also contains the container
+# holding the IntEnum member. The Lean `Obj.same` keeps instances apart from ints (Core/Obj.lean), so objects with an
+# IntEnum member NESTED in a container are outside the modelled fragment: the generators do not produce them
+# (recorded in the ASSUMPTIONS of the properties using these generators).
+_IE = CID[U.IE]
+_COLOR = CID[U.Color]
+
+
+def _no_nested_intenum(o, top=True):
+    k = o[0]
+    if k == "inst":
+        # replaced by a string that occurs nowhere else (a Color member could duplicate a set element / dict key)
+        return ("str", "ie%d" % o[2]) if (not top and o[1] == _IE) else o
+    if k in ("tuple", "list", "set", "fset"):
+        return (k, [_no_nested_intenum(x, False) for x in o[1]])
+    if k == "dict":
+        return ("dict", [_no_nested_intenum(x, False) for x in o[1]], [_no_nested_intenum(x, False) for x in o[2]])
+    return o
+
+
+def _wrap_obj_gen(fn):
+    def inner(*a, **kw):
+        return _no_nested_intenum(fn(*a, **kw))
+    inner.__name__ = fn.__name__
+    inner.__doc__ = fn.__doc__
+    return inner
+
+
+gen_obj = _wrap_obj_gen(gen_obj)
+gen_obj_for = _wrap_obj_gen(gen_obj_for)
+mutate_obj = _wrap_obj_gen(mutate_obj)
+_small_objs_raw = small_objs
+
+
+def small_objs():
+    return [_no_nested_intenum(o) for o in _small_objs_raw()]
